@@ -41,10 +41,18 @@ SPEC = {
             "literals, strings with every special character) in VAR-block initialisers incl. multi-line and shuffled ones, "
             "assignments, named call arguments and CASE labels; 1 text in 8 ends without a line terminator in a line with "
             "characters outside the BMP, with range / on-type requests reaching it; valid programs 38%, mutated 22%, "
-            "mixed comment/pragma/string lines 14%, token soup 11%, tiny 3%; LF/CRLF/mixed) x generated configuration (FormattingOptions, vendor profile via trust-lsp.toml, all "
+            "mixed comment/pragma/string lines 14%, token soup 11%, tiny 3%; 1 text in 4 writes variable references Siemens-style `#name` "
+            "(a Hash token directly behind keywords, operators, brackets), flagged texts take based / typed literals apart at the `#` (`16 # FF`, `INT# 5`); "
+            "LF/CRLF/mixed) x generated configuration (FormattingOptions, vendor profile via trust-lsp.toml, all "
             "eight client settings through random key aliases) x full + 1-2 ranges + 1-2 on-type positions + second "
             "formatting + web formatter twice; non-trivial = at least 3 non-trivia tokens and 2 lines; distinct = by hash of "
-            "the case's operation lines",
+            "the case's operation lines.  GLUE MATRIX (the gluecases cases that follow the fixed witness cases - 20..61 in the quick tier - swept independently of the seed; the seed picks "
+            "representatives, continuation, frame and source white space): every left-hand token class (keyword, identifier, integer, "
+            "real, temporal literal, typed-literal prefix, temporal prefix, direct address, string, closer) x every punctuation / operator "
+            "should_glue mentions (12 + 15), 20 swept + 8 random pairs per text, each pair on a line WITHOUT any other `(` `.` `..` and on "
+            "a line with a call / member access / subrange next to it, in default-spaced (profiles none/codesys/mitsubishi/acme), "
+            "explicitly spaced (all five profiles) and compact (explicit or by the siemens profile) style; lines containing a token the "
+            "lexer labels by its right context (open finding) are left out, exactly those",
     "trusted_base": [
         "Lean 4.33.0 kernel; axioms per theorem listed under 'theorems'",
         "hand-written model lean/TrustVerif/Model/C15.lean of format_config, should_glue, format_line_tokens, the per-line "
@@ -330,10 +338,14 @@ MANIFEST["level_text"] = (
     "when the first ':' is not a Colon token; (3) c15_range_edit (the edit replaces exactly source lines a..b by formatted "
     "lines a..b; LF texts, range not touching the last line) + c15_range_line_count (without wrapping - range/on-type "
     "formatting never wrap - one formatted line per source line) + c15_full_edit; (4) c15_no_panic - for every configuration "
-    "the indent never underflows; (5) web formatter: c15_web_lines, c15_web_nonws, c15_web_idempotent - IN FULL for every text. "
+    "the indent never underflows; (5) web formatter: c15_web_lines, c15_web_nonws, c15_web_idempotent - IN FULL for every text; "
+    "(6) c15_relex_guard_needed_without_paren_or_dot - the re-lex guard cannot be restricted to compact style or to lines with "
+    "`(` `.` `..`: in spaced style exactly seven further class pairs (keyword / identifier / integer + `#`, temporal prefix + sign / "
+    "number) are glued unsafely; c15_align_assign_partial - align_assignment_ops inserts white space only, for every list of lines. "
     "Still violated by the code, each with a proved counterexample or a replayed witness and an OPEN entry in "
     "known_findings.json: LSP formatting is not idempotent after wrapping (c15_wrap_idempotent_counterexample), the web "
-    "formatter re-indents the interior of multi-line comments / pragmas (c15_web_comment_counterexample), open-ended Error "
+    "formatter re-indents the interior of multi-line comments / pragmas (c15_web_comment_counterexample), in compact style the "
+    "assignment alignment pads inside the token pair `<=` `>` (text search finds \"=>\"; c15_align_assign_counterexample), open-ended Error "
     "tokens, Unicode white space Error tokens, context-dependent lexer labels."
 )
 MANIFEST["level_note"] = (
